@@ -174,6 +174,11 @@ CLI_LAYOUTS = [
     ({"a.mac": "\t.link 1000\nstart:\tmov #start, r0\n", "b.mac": "\t.word 1, 2, 3\n\t.byte 7\n"}, ".", ["a.mac", "b.mac", "--implicit-bin"], {"a.bin": ("bin", None)}),
     ({"a.mac": "\t.link 1000\nstart:\tmov #start, r0\n\t.include \"i/inc.mac\"\n", "i/inc.mac": "\t.word 1, 2, 3\n\t.byte 7\nmake_raw \"inc.raw\"\nmake_bin\n"}, ".", ["a.mac"],
      {"i/inc.raw": ("raw", None), "i/inc.bin": ("bin", None)}),
+    # working directory different from the source directory, output directives inside an included file
+    ({"proj/main.mac": "\t.link 1000\nstart:\tmov #start, r0\n\t.include \"lib.mac\"\n", "proj/lib.mac": "\t.word 1, 2, 3\n\t.byte 7\nmake_bin\nmake_raw \"out/l.raw\"\n", "proj/out/keep": "", "other/keep": ""},
+     "other", ["../proj/main.mac"], {"proj/lib.bin": ("bin", None), "proj/out/l.raw": ("raw", None)}),
+    ({"proj/main.mac": "\t.link 1000\nstart:\tmov #start, r0\n\t.include \"sub/lib.mac\"\n", "proj/sub/lib.mac": "\t.word 1, 2, 3\n\t.byte 7\nmake_wav\n"},
+     ".", ["proj/main.mac"], {"proj/sub/lib.wav": ("bk_wav", "lib")}),
     ({"a.mac": SRC}, ".", ["a.mac", "-o", "out.bin", "--charset", "koi8-r"], {"out.bin": ("bin", None)}),
     ({"a.mac": SRC + "make_wav \"t.wav\", \"ИМЯ\"\n"}, ".", ["a.mac", "--charset", "koi8-r"], {"t.wav": ("bk_wav", ("koi8-r", "ИМЯ"))}),
     ({"a.mac": SRC + "make_wav \"t.wav\", \"ИМЯ\"\n"}, ".", ["a.mac", "--charset", "utf-8"], {"t.wav": ("bk_wav", ("utf-8", "ИМЯ"))}),
